@@ -250,6 +250,54 @@ func init() {
 			return Val{S: "Tuple"}, true
 		},
 	}
+	// fmt.Sprintf with a constant format made of literal text and %s / %v verbs only: when every argument is a
+	// string held in the variadic []any, the result is the concatenation (any other case: arbitrary string)
+	externModels["fmt.Sprintf"] = func(c *FnCtx, f *ssa.Function, a []Val, rt types.Type, pos token.Pos) (Val, bool) {
+		if len(a) != 2 || a[0].S != SStr || a[1].S != SSlice {
+			return Val{}, false
+		}
+		lit, ok := "", false
+		if a[0].T == "str_empty" {
+			lit, ok = "", true
+		}
+		for txt, name := range c.lits {
+			if name == a[0].T {
+				lit, ok = txt, true
+			}
+		}
+		if !ok {
+			return Val{}, false
+		}
+		norm := strings.ReplaceAll(lit, "%v", "%s")
+		pieces := strings.Split(norm, "%s")
+		for _, pc := range pieces {
+			if strings.Contains(pc, "%") {
+				return Val{}, false
+			}
+		}
+		c.usedExtern("fmt.Sprintf with a %s/%v-only constant format: concatenation when every argument is a string")
+		n := len(pieces) - 1
+		hn, _ := c.M.SliceHeap(types.NewInterfaceType(nil, nil))
+		h := c.H(hn)
+		sl := a[1].T
+		term := c.strLit(pieces[0])
+		conds := []string{fmt.Sprintf("(= (s_len %s) %d)", sl, n)}
+		for i := 0; i < n; i++ {
+			el := fmt.Sprintf("(select (select %s (s_ref %s)) (+ (s_off %s) %d))", h, sl, sl, i)
+			conds = append(conds, fmt.Sprintf("((_ is a_str) %s)", el))
+			term = fmt.Sprintf("(sconcat %s (a_s %s))", term, el)
+			if pieces[i+1] != "" {
+				term = fmt.Sprintf("(sconcat %s %s)", term, c.strLit(pieces[i+1]))
+			}
+		}
+		r := c.freshConst("sprintf", SStr)
+		if n == 0 {
+			c.fact(fmt.Sprintf("(= %s %s)", r, term))
+		} else {
+			c.fact(fmt.Sprintf("(=> (and %s) (= %s %s))", strings.Join(conds, " "), r, term))
+		}
+		return Val{T: r, S: SStr, GT: types.Typ[types.String]}, true
+	}
 	for _, n := range []string{"cmp.Compare", "strings.Compare"} {
 		externModels[n] = func(c *FnCtx, f *ssa.Function, a []Val, rt types.Type, pos token.Pos) (Val, bool) {
 			if len(a) != 2 || a[0].S != SStr || a[1].S != SStr {
